@@ -313,6 +313,11 @@ EXOTIC_FORMS = [
     '(|| EXPR)()',
     '(|_: u8| -> _ { EXPR })(0)',
     '*&EXPR',
+    "w::lit(EXPR, '>', \"~=> |> <<< , ->\")",
+    'simrt::idm![EXPR]',
+    'simrt::idm!(EXPR)',
+    'w::Wr { f: EXPR }.f',
+    'w::idr(EXPR, 0..=2)',
 ]
 SH_OPS = ['<<', '>>', '|', '^', '&', '+', '-', '*', '/', '%']
 GUARD_NOISE = ['1u32 << 1 > 0', '8u32 >> 1 > 0', '1 < 2', '2 > 1', 'true && !false', 'true || false', '3u8 ^ 1 != 0', '1u32 << 1 >> 1 < 2',
